@@ -217,7 +217,7 @@ def get_dumps(crates, want_adt=True):
     return res
 
 
-def prune_cache(keep, max_keep=3):
+def prune_cache(keep, max_keep=8):
     ds = sorted((os.path.getmtime(os.path.join(MIR_CACHE, x)), x) for x in os.listdir(MIR_CACHE))
     for _, x in ds[:-max_keep]:
         if x != keep:
